@@ -202,10 +202,22 @@ class TiledStridedLayoutAttr(MemRefLayoutAttr, Data[TiledStridedLayout]):
         # if everything is dynamic, default to the most right stride (row-major-like)
         max_key = (tsl.dimension() - 1, tsl.tstrides[-1].depth() - 1)
         max_value = 0
+        max_bound = 0
         for dim, depth, stride in self.data:
-            if stride.step and stride.step > max_value:
+            if not stride.step:
+                continue
+            # among equal steps, the stride that covers most (a bound only known at run time counts as largest)
+            bound = stride.bound if stride.bound is not None else float("inf")
+            if (stride.step, bound) > (max_value, max_bound):
                 max_key = (dim, depth)
                 max_value = stride.step
+                max_bound = bound
+        if max_value == 0:
+            # everything is dynamic: the most right stride is the contiguous one
+            max_value = 1
+            result_mapping_seed = True
+        else:
+            result_mapping_seed = False
         max_value = max_value * el_bytes
 
         # generate ops for the maximum
@@ -213,6 +225,8 @@ class TiledStridedLayoutAttr(MemRefLayoutAttr, Data[TiledStridedLayout]):
         # can be used as a starting value for the dynamic strides
         max_stride_op = ConstantOp.from_int_and_width(max_value, IndexType())
         result.append(max_stride_op)
+        if result_mapping_seed and max_key not in result_mapping and tsl.get_stride(*max_key).step is None:
+            result_mapping[max_key] = max_stride_op
         dynamic_step = MuliOp(
             bound_ops[max_key],
             max_stride_op,
